@@ -348,7 +348,7 @@ fn c14_long_keys(log: &mut Log, seed: u64, thorough: bool) {
         }
         // the same with an automaton on top (every key matches)
         {
-            let aut = TableAut { n: 1, start: 1, cls: vec![1usize; 256], delta: vec![vec![1]], matches: vec![true], can: vec![true], always: vec![false] };
+            let aut = TableAut { n: 1, start: 1, cls: vec![1usize; 256], delta: vec![vec![1]], matches: vec![true], can: vec![true], always: vec![false], eof: vec![] };
             let snap = alloc::begin();
             let mut s = f.search(&aut).ge(&first[..PRE]).into_stream();
             let mut items = 0usize;
@@ -455,7 +455,7 @@ pub fn c14(log: &mut Log, seed: u64, tier: &str) {
         {
             let mut cls = vec![1usize; 256];
             cls[b'b' as usize] = 2;
-            let mut aut = TableAut { n: 2, start: 1, cls, delta: vec![vec![1, 2], vec![2, 1]], matches: vec![true, false], can: vec![true, true], always: vec![false, false] };
+            let mut aut = TableAut { n: 2, start: 1, cls, delta: vec![vec![1, 2], vec![2, 1]], matches: vec![true, false], can: vec![true, true], always: vec![false, false], eof: vec![] };
             aut.exact_hints();
             let snap = alloc::begin();
             let mut s = f.search(&aut).into_stream();
@@ -472,7 +472,7 @@ pub fn c14(log: &mut Log, seed: u64, tier: &str) {
         {
             let mut cls = vec![1usize; 256];
             cls[b'b' as usize] = 2;
-            let mut aut = TableAut { n: 2, start: 1, cls, delta: vec![vec![1, 2], vec![2, 2]], matches: vec![true, false], can: vec![true, true], always: vec![false, false] };
+            let mut aut = TableAut { n: 2, start: 1, cls, delta: vec![vec![1, 2], vec![2, 2]], matches: vec![true, false], can: vec![true, true], always: vec![false, false], eof: vec![] };
             aut.exact_hints();
             let snap = alloc::begin();
             let mut s = f.search_with_state(&aut).into_stream();
